@@ -787,3 +787,539 @@ func (p *Prog) withNewHelpers(fn *ssa.Function) []*ssa.Function {
 	add(fn, 0)
 	return out
 }
+
+// ---------------------------------------------------------------------------
+// LOCK/balance (C15, C20, C11, C03): every function leaves each mutex as it
+// found it — on every path to a normal return the Lock and Unlock calls on a
+// mutex cancel out (deferred calls replayed at the exits, callees counted with
+// their own net effect, closures that run later analysed on their own). A path
+// that returns with a mutex still held blocks every later event, request and the
+// shutdown for the resource, connection or service the mutex belongs to; a path
+// that returns with one unlock too many crashes the process ("unlock of unlocked
+// mutex"). The unlock windows (Unlock … Lock inside a task that runs with the
+// mutex held) net to zero like every critical section.
+
+type lockDelta map[*types.Var]int
+
+func (d lockDelta) key(p *Prog) string {
+	var parts []string
+	for f, n := range d {
+		if n != 0 {
+			parts = append(parts, fmt.Sprintf("%s%+d", typeFieldName(p, f), n))
+		}
+	}
+	sortStrings(parts)
+	return strings.Join(parts, " ")
+}
+
+func sortStrings(s []string) {
+	for i := 1; i < len(s); i++ {
+		for j := i; j > 0 && s[j] < s[j-1]; j-- {
+			s[j], s[j-1] = s[j-1], s[j]
+		}
+	}
+}
+
+// mutexOp: the call is Lock/RLock (+1) or Unlock/RUnlock (-1) of a mutex that is a
+// struct field; returns the field.
+func mutexOp(c *ssa.CallCommon) (*types.Var, int) {
+	f := calleeFunc(c)
+	if f == nil || f.Pkg() == nil || f.Pkg().Path() != "sync" {
+		return nil, 0
+	}
+	d := 0
+	switch f.Name() {
+	case "Lock", "RLock":
+		d = 1
+	case "Unlock", "RUnlock":
+		d = -1
+	default:
+		return nil, 0
+	}
+	args := callArgs(c)
+	if len(args) == 0 {
+		return nil, 0
+	}
+	if fa, ok := stripConv(args[0]).(*ssa.FieldAddr); ok {
+		if fv := fieldOfAddr(fa); fv != nil {
+			return fv, d
+		}
+	}
+	return nil, 0
+}
+
+func ruleLockBalance(c *Ctx) {
+	p := c.P
+	// roots: named functions and closures that are not simply called / deferred where they are made
+	var roots []*ssa.Function
+	for _, fn := range p.Repo {
+		top := TopLevel(fn)
+		if top.Pkg == nil {
+			continue
+		}
+		switch top.Pkg.Pkg.Name() {
+		case "server", "rescache", "nats":
+		default:
+			continue
+		}
+		if fn.Parent() != nil {
+			if mc := p.parent[fn]; mc != nil && mc.Referrers() != nil {
+				onSpot := len(*mc.Referrers()) > 0
+				for _, r := range *mc.Referrers() {
+					cl, ok := r.(ssa.CallInstruction)
+					if !ok || cl.Common().Value != ssa.Value(mc) {
+						onSpot = false
+					}
+					if _, isGo := r.(*ssa.Go); isGo {
+						onSpot = false
+					}
+				}
+				if onSpot {
+					continue
+				}
+			}
+		}
+		roots = append(roots, fn)
+	}
+	summary := map[*ssa.Function]lockDelta{}
+	type res struct {
+		keys  map[string]bool
+		trunc bool
+		delta lockDelta
+	}
+	analyse := func(fn *ssa.Function) res {
+		sp := &Spec{NoHelpers: true, NoCombs: true, EdgeLimit: 1, MaxPaths: 20000}
+		sp.Inline = func(t *Tracer, fr *Frame, cl ssa.CallInstruction, f *ssa.Function) bool {
+			return f.Parent() != nil // closures called on the spot
+		}
+		sp.Classify = func(t *Tracer, fr *Frame, in ssa.Instruction) []Ev {
+			cl, ok := in.(ssa.CallInstruction)
+			if !ok {
+				return nil
+			}
+			if _, isGo := in.(*ssa.Go); isGo {
+				return nil
+			}
+			if fv, d := mutexOp(cl.Common()); fv != nil {
+				return []Ev{{Kind: fmt.Sprintf("L:%p:%d", fv, d), Note: typeFieldName(p, fv)}}
+			}
+			if sf := cl.Common().StaticCallee(); sf != nil && sf.Parent() == nil {
+				if sd := summary[sf]; len(sd) > 0 {
+					var evs []Ev
+					for fv, n := range sd {
+						if n != 0 {
+							evs = append(evs, Ev{Kind: fmt.Sprintf("L:%p:%d", fv, n), Note: typeFieldName(p, fv)})
+						}
+					}
+					return evs
+				}
+			}
+			return nil
+		}
+		tr := runTrace(p, fn, sp)
+		r := res{keys: map[string]bool{}, trunc: tr.Trunc}
+		byPtr := map[string]*types.Var{}
+		for _, path := range tr.Paths {
+			d := lockDelta{}
+			for _, e := range path {
+				if !strings.HasPrefix(e.Kind, "L:") {
+					continue
+				}
+				var ptr string
+				var n int
+				parts := strings.Split(e.Kind, ":")
+				ptr = parts[1]
+				fmt.Sscanf(parts[2], "%d", &n)
+				fv := byPtr[ptr]
+				if fv == nil {
+					// recover the field from the instruction
+					if cl, ok := e.Instr.(ssa.CallInstruction); ok {
+						if f2, _ := mutexOp(cl.Common()); f2 != nil {
+							fv = f2
+						} else if sf := cl.Common().StaticCallee(); sf != nil {
+							for f3 := range summary[sf] {
+								if fmt.Sprintf("%p", f3) == ptr {
+									fv = f3
+								}
+							}
+						}
+					}
+					byPtr[ptr] = fv
+				}
+				if fv != nil {
+					d[fv] += n
+				}
+			}
+			r.keys[d.key(p)] = true
+			r.delta = d
+		}
+		return r
+	}
+	// callee summaries to a fixpoint (static calls only; the repository has no lock-transferring recursion)
+	results := map[*ssa.Function]res{}
+	for round := 0; round < 4; round++ {
+		changed := false
+		for _, fn := range roots {
+			r := analyse(fn)
+			results[fn] = r
+			if fn.Parent() == nil && len(r.keys) == 1 {
+				nd := lockDelta{}
+				for f, n := range r.delta {
+					if n != 0 {
+						nd[f] = n
+					}
+				}
+				if nd.key(p) != summary[fn].key(p) {
+					summary[fn] = nd
+					changed = true
+				}
+			}
+		}
+		if !changed {
+			break
+		}
+	}
+	nLock := 0
+	for _, fn := range roots {
+		r := results[fn]
+		has := false
+		for _, call := range callsIn(fn) {
+			if fv, _ := mutexOp(call.Common()); fv != nil {
+				has = true
+			}
+		}
+		if !has && len(r.keys) <= 1 {
+			only := ""
+			for k := range r.keys {
+				only = k
+			}
+			if only == "" {
+				continue
+			}
+		}
+		nLock++
+		c.inst(1)
+		what := "leaves every mutex as it found it on every path to a return"
+		pos := p.Pos(fn.Pos())
+		if r.trunc {
+			c.undecided(fnName(fn), what, pos, "path budget exhausted")
+			continue
+		}
+		var ks []string
+		for k := range r.keys {
+			if k == "" {
+				k = "balanced"
+			}
+			ks = append(ks, k)
+		}
+		sortStrings(ks)
+		switch {
+		case len(r.keys) > 1:
+			c.viol(fnName(fn), what, pos, "the paths of this function disagree on what they leave locked ("+strings.Join(ks, " | ")+"): on some path a mutex is still held at the return (everything that needs it afterwards blocks for ever) or is unlocked once too often (fatal error: unlock of unlocked mutex)")
+		case len(r.keys) == 1 && ks[0] != "balanced":
+			c.viol(fnName(fn), what, pos, "every path returns with "+ks[0]+": the mutex is left held (or released without being held)")
+		default:
+			c.ok(fnName(fn), what, pos, "Lock and Unlock cancel out on every path")
+		}
+	}
+	if nLock == 0 {
+		c.viol("repository", "leaves every mutex as it found it on every path to a return", "-", "no function locks a mutex")
+	}
+}
+
+// ---------------------------------------------------------------------------
+// LOCK/guarded-fields (C15, C20, C11, C18, C19): the fields each mutex guards
+// (frozen table, discovered on the reference tree where every access outside a
+// constructor lies inside the mutex's critical sections) are read and written
+// with that mutex held. Lock state is tracked flow-sensitively inside each
+// function and handed to callees as the meet over their call sites. An access
+// that moved out of its critical section (a `defer mu.Unlock()` that lost its
+// defer, a check hoisted above the Lock) is a data race on a map or slice —
+// "concurrent map iteration and map write" terminates the gateway — or a
+// check-then-act on stale state.
+
+type guardedEntry struct {
+	Mu, Field string
+	Except    map[string]string // function -> why an access outside the critical sections is fine there
+}
+
+var guardedTable = []guardedEntry{
+	{"rescache.Cache.mu", "rescache.Cache.eventSubs", map[string]string{"(*rescache.Cache).Start": "re-created before the workers and the reset subscription exist"}},
+	{"rescache.Cache.mu", "rescache.Cache.conns", nil},
+	{"server.Service.mu", "server.Service.conns", map[string]string{"(*server.Service).initWSHandler": "initialisation in NewService"}},
+	{"server.Service.mu", "server.Service.stopping", nil},
+	{"server.Service.mu", "server.Service.stop", nil},
+	{"server.Service.mu", "server.Service.h", nil},
+	{"nats.Client.mu", "nats.Client.mqReqs", nil},
+	{"nats.Client.mu", "nats.Client.mq", nil},
+	{"nats.Client.mu", "nats.Client.tq", nil},
+	{"nats.Client.mu", "nats.Client.mqCh", nil},
+	{"nats.Client.mu", "nats.Client.stopped", nil},
+	{"rescache.Throttle.mu", "rescache.Throttle.running", nil},
+	{"rescache.Throttle.mu", "rescache.Throttle.queue", nil},
+	{"server.wsConn.mu", "server.wsConn.queue", map[string]string{"(*server.wsConn).outputWorker": "the store of nil after the work channel was closed: the flag set under the same mutex makes every later Enqueue refuse"}},
+}
+
+func ruleGuardedFields(c *Ctx) {
+	p := c.P
+	memo := map[*types.Var]map[*ssa.Function]map[ssa.Instruction]int{}
+	for _, ge := range guardedTable {
+		mu, fld := p.Field(ge.Mu), p.Field(ge.Field)
+		if mu == nil || fld == nil {
+			c.undecided(ge.Field, "anchor", "-", "mutex or field not found")
+			continue
+		}
+		if memo[mu] == nil {
+			memo[mu] = p.lockStatesGeneric(mu)
+		}
+		states := memo[mu]
+		nHeld := 0
+		for _, fa := range p.faddrs[fld] {
+			if _, isAlloc := fa.X.(*ssa.Alloc); isAlloc {
+				continue // construction
+			}
+			fn := fa.Parent()
+			st := 0
+			if m := states[fn]; m != nil {
+				st = m[fa]
+			}
+			c.inst(1)
+			what := "access of " + ge.Field[strings.LastIndex(ge.Field, ".")+1:] + " under " + ge.Mu
+			if st == 1 {
+				nHeld++
+				c.ok(fnName(fn), what, p.InstrPos(fa), "mutex held")
+				continue
+			}
+			excepted := false
+			owners := []string{fnName(TopLevel(fn))}
+			if !p.onReferenceTree(TopLevel(fn)) {
+				owners = append(owners, p.ownerChain(fn)...) // a helper extracted from the excepted function
+			}
+			for _, o := range owners {
+				if why, ok := ge.Except[o]; ok {
+					c.ok(fnName(fn), what, p.InstrPos(fa), "exception: "+why)
+					excepted = true
+					break
+				}
+			}
+			if excepted {
+				continue
+			}
+			kind := "not held"
+			if st == 2 {
+				kind = "held on some paths (or at some call sites) only"
+			}
+			c.viol(fnName(fn), what, p.InstrPos(fa), ge.Field+" is touched with "+ge.Mu+" "+kind+": every other access lies inside the mutex's critical sections — an unsynchronised access races with them (a map or slice read while it is written: 'concurrent map iteration and map write' ends the process; a test of stale state lets a connection in while the service stops)")
+		}
+		if nHeld == 0 {
+			c.viol(ge.Field, "access under "+ge.Mu, "-", "no access under the mutex found")
+		}
+	}
+}
+
+// lockStatesGeneric: like esLockStates for any mutex field: every function of
+// the mutex's package gets the meet of the lock state over its static call
+// sites as entry state; closures start free unless they are called where they
+// are made.
+func (p *Prog) lockStatesGeneric(mu *types.Var) map[*ssa.Function]map[ssa.Instruction]int {
+	pkg := mu.Pkg()
+	entry := map[*ssa.Function]int{}
+	var fns []*ssa.Function
+	for _, f := range p.Repo {
+		top := TopLevel(f)
+		if top.Pkg != nil && top.Pkg.Pkg == pkg {
+			fns = append(fns, f)
+			entry[f] = -1
+		}
+	}
+	onSpot := func(f *ssa.Function) bool {
+		mc := p.parent[f]
+		if mc == nil || mc.Referrers() == nil || len(*mc.Referrers()) == 0 {
+			return false
+		}
+		for _, r := range *mc.Referrers() {
+			cl, ok := r.(ssa.CallInstruction)
+			if !ok || cl.Common().Value != ssa.Value(mc) {
+				return false
+			}
+			if _, isGo := r.(*ssa.Go); isGo {
+				return false
+			}
+		}
+		return true
+	}
+	hasCaller := map[*ssa.Function]bool{}
+	for _, f := range fns {
+		for _, call := range callsIn(f) {
+			if _, isGo := call.(*ssa.Go); isGo {
+				continue
+			}
+			if sf := call.Common().StaticCallee(); sf != nil && sf != f {
+				if _, ok := entry[sf]; ok {
+					hasCaller[sf] = true
+				}
+			}
+		}
+	}
+	for _, f := range fns {
+		if f.Parent() != nil && !onSpot(f) {
+			entry[f] = 0
+		}
+		if f.Parent() == nil && (!hasCaller[f] || (f.Object() != nil && f.Object().Exported())) {
+			entry[f] = 0 // entry points: exported, or not called inside the package
+		}
+	}
+	states := map[*ssa.Function]map[ssa.Instruction]int{}
+	for iter := 0; iter < 100; iter++ {
+		changed := false
+		for _, f := range fns {
+			if entry[f] != -1 {
+				states[f] = lockStates(f, mu, entry[f])
+			}
+		}
+		for _, f := range fns {
+			st := states[f]
+			if st == nil {
+				continue
+			}
+			for _, call := range callsIn(f) {
+				if _, isGo := call.(*ssa.Go); isGo {
+					continue
+				}
+				var tgt *ssa.Function
+				if sf := call.Common().StaticCallee(); sf != nil {
+					tgt = sf
+				} else if mc, ok := call.Common().Value.(*ssa.MakeClosure); ok {
+					tgt = mc.Fn.(*ssa.Function)
+				}
+				if tgt == nil {
+					continue
+				}
+				old, ok := entry[tgt]
+				if !ok {
+					continue
+				}
+				s := st[call]
+				if _, isDefer := call.(*ssa.Defer); isDefer {
+					// runs at the exits: the state there — approximated by the state at the last return
+					for _, b := range f.Blocks {
+						if len(b.Instrs) > 0 {
+							if r, isR := b.Instrs[len(b.Instrs)-1].(*ssa.Return); isR {
+								s = st[r]
+							}
+						}
+					}
+				}
+				n := old
+				switch {
+				case old == -1:
+					n = s
+				case old != s:
+					n = 2
+				}
+				if tgt.Object() != nil && tgt.Object().Exported() && tgt.Parent() == nil && n == 1 {
+					n = 2 // exported: may also be entered from outside without the lock
+				}
+				if n != old {
+					entry[tgt] = n
+					changed = true
+				}
+			}
+		}
+		if !changed {
+			progressed := false
+			for _, f := range fns {
+				if entry[f] == -1 {
+					entry[f] = 0
+					progressed = true
+					break
+				}
+			}
+			if !progressed {
+				break
+			}
+		}
+	}
+	for _, f := range fns {
+		if states[f] == nil && entry[f] != -1 {
+			states[f] = lockStates(f, mu, entry[f])
+		}
+	}
+	return states
+}
+
+// cmdLockStats prints, per mutex field and sibling field, how many accesses lie
+// under the mutex (table authoring aid for LOCK/guarded-fields).
+func cmdLockStats(args []string) int {
+	repo := "/repo"
+	if len(args) > 0 {
+		repo = args[0]
+	}
+	p, err := Load(repo, "")
+	if err != nil {
+		fmt.Println(err)
+		return 2
+	}
+	for f := range p.faddrs {
+		if !strings.HasSuffix(f.Type().String(), "sync.Mutex") && !strings.HasSuffix(f.Type().String(), "sync.RWMutex") {
+			continue
+		}
+		owner := fieldOwner(p, f)
+		states := p.lockStatesGeneric(f)
+		fmt.Printf("== %s.%s\n", owner, f.Name())
+		n := p.Named(owner)
+		if n == nil {
+			continue
+		}
+		st, _ := n.Underlying().(*types.Struct)
+		for k := 0; st != nil && k < st.NumFields(); k++ {
+			g := st.Field(k)
+			if g == f {
+				continue
+			}
+			held, free, either, ctor := 0, 0, 0, 0
+			var freeAt []string
+			for _, fa := range p.faddrs[g] {
+				if _, isAlloc := fa.X.(*ssa.Alloc); isAlloc {
+					ctor++
+					continue
+				}
+				s := 0
+				if m := states[fa.Parent()]; m != nil {
+					s = m[fa]
+				}
+				switch s {
+				case 1:
+					held++
+				case 0:
+					free++
+					freeAt = append(freeAt, fnName(fa.Parent()))
+				default:
+					either++
+					freeAt = append(freeAt, fnName(fa.Parent())+"?")
+				}
+			}
+			if held+free+either == 0 {
+				continue
+			}
+			fmt.Printf("   %-18s held=%d free=%d either=%d ctor=%d %v\n", g.Name(), held, free, either, ctor, freeAt)
+		}
+	}
+	return 0
+}
+
+// onReferenceTree: the function existed (under this name) on the tree the rule
+// tables were written for.
+func (p *Prog) onReferenceTree(fn *ssa.Function) bool {
+	g := loadGolden()
+	if len(g.Funcs) == 0 {
+		return true
+	}
+	n := fnName(fn)
+	for _, x := range g.Funcs {
+		if x == n {
+			return true
+		}
+	}
+	return false
+}
